@@ -1,4 +1,5 @@
 from rules import shared as S
+from rules import late as L
 
 DOC = {
     'explanation': 'C07 structural clauses: capture under the tables lock, validity checks cut off the restore, durability discipline, lifecycle, commit/abort bookkeeping, re-registration on open, purge horizon, snapshot pinning, restore frees/queues',
@@ -34,3 +35,4 @@ def rules(ctx):
     S.survey3_rules(ctx)
     S.round5_rules(ctx)
     S.round6_rules(ctx)
+    L.round7_rules(ctx)
